@@ -1,7 +1,7 @@
 (* Props/C17.v — History and status tell the truth about the ledger.
    Only statements, each closed by [exact]; proofs live in Lemmas/. *)
 From Model Require Import Examples.
-From Lemmas Require Import StatusLemmas LedgerLemmas HistoryLemmas.
+From Lemmas Require Import StatusLemmas LedgerLemmas HistoryLemmas HistoryLemmas2 HistoryLemmas3.
 From Corr Require Import Chain.
 Open Scope Z_scope.
 
@@ -111,7 +111,27 @@ Check apply_entry_history_hyps.
 Check apply_held_history_hyps.
 Check pay_winners_history_hyps.
 
-(* replaying the recorded history reproduces the balances: checked on the model's own example ... *)
+(* ---- replaying the recorded history reproduces every address's balances: EVERY chain -------------------------
+   [accounts c s]: every cell (a, t) with a outside the three special addresses (the two burn addresses and the
+   mint address: the one-time adjustments) equals [hist_sum c s a t], the sum over ALL transaction rows whose
+   batch counts as executed (first batch row of the hash, status > 0) of what the row stands for.
+   Hypotheses: [block_okb] for every block -- heights positive, no transaction converts INTO PEG (the PEG-bank
+   payout of the legacy era is not covered: recorded finding on mixed batches), the graders' payouts are uint64
+   values and reported prices non-negative; and the final batch-row hashes are distinct (no collision between
+   an entry hash and the synthetic ids the daemon makes up for coinbase rows: true of SHA-256 hashes except for
+   the one id reuse recorded in DESIGN section 15, nullify-burn at 260118). *)
+Theorem C17_history_replays_every_chain : forall c bs s m,
+  forallb block_okb bs = true ->
+  replay c genesis empty_cache bs = Done (s, m) ->
+  NoDup (map hb_hash (hist s)) ->
+  accounts c s.
+Proof. exact replay_accounts. Qed.
+Print Assumptions C17_history_replays_every_chain.
+(* hypotheses satisfiable, and the theorem applied: alice's pUSD after the example chain is 80 both ways *)
+Check replay_accounts_hyps.
+Check replay_accounts_example.
+
+(* the same statement as an executable oracle (Corr.Chain.impl_history_replays), on the model's own example ... *)
 Example C17_history_replays_on_the_model :
   match replay ex_cfg genesis empty_cache ex_chain with
   | Done (s, _) => impl_history_replays (c_V202EnhanceActivation ex_cfg) [] (sort_rows (dump_db s)) = true
